@@ -513,7 +513,19 @@ func (l *Loop) ExitEdges() (edges [][2]*ssa.BasicBlock) {
 
 // BoolKnownAt: Yes if boolean value v is known true in block at (dominated by
 // the true edge of `if v` or the false edge of `if !v`), No if known false.
+// The branch condition may also be a value built from v: a negation, a comparison
+// with a boolean constant (the form go/ssa gives the cases of a tagless switch:
+// `true == cond`), or the phi of a short-circuit `v && w` / `v || w` evaluated as
+// a value — that phi being true means it was not fed by the constant false, so
+// the block evaluating w ran, and that block is reached only where v held.
 func BoolKnownAt(v ssa.Value, at *ssa.BasicBlock) Tri {
+	return boolKnownAt(v, at, 0)
+}
+
+func boolKnownAt(v ssa.Value, at *ssa.BasicBlock, depth int) Tri {
+	if depth > 4 {
+		return Maybe
+	}
 	for b := at; b != nil; b = b.Idom() {
 		idom := b.Idom()
 		if idom == nil {
@@ -523,24 +535,194 @@ func BoolKnownAt(v ssa.Value, at *ssa.BasicBlock) Tri {
 		if !ok {
 			continue
 		}
-		cond := ifi.Cond
-		neg := false
-		if u, ok := cond.(*ssa.UnOp); ok && u.Op == token.NOT {
-			cond = u.X
-			neg = true
-		}
-		if cond != v {
-			continue
-		}
 		onTrue := idom.Succs[0] == b && len(b.Preds) == 1
 		onFalse := idom.Succs[1] == b && len(b.Preds) == 1
 		if onTrue == onFalse {
 			continue
 		}
-		if onTrue != neg {
+		if t := boolImplies(ifi.Cond, onTrue, v, depth); t != Maybe {
+			return t
+		}
+	}
+	return Maybe
+}
+
+// boolImplies: what the fact `cond == truth` says about v.
+func boolImplies(cond ssa.Value, truth bool, v ssa.Value, depth int) Tri {
+	if cond == v {
+		if truth {
 			return Yes
 		}
 		return No
 	}
+	if depth > 4 {
+		return Maybe
+	}
+	constBool := func(x ssa.Value) (bool, bool) {
+		k, ok := x.(*ssa.Const)
+		if !ok || k.Value == nil {
+			return false, false
+		}
+		if bt, ok := k.Type().Underlying().(*types.Basic); !ok || bt.Info()&types.IsBoolean == 0 {
+			return false, false
+		}
+		return k.Value.String() == "true", true
+	}
+	switch c := cond.(type) {
+	case *ssa.UnOp:
+		if c.Op == token.NOT {
+			return boolImplies(c.X, !truth, v, depth+1)
+		}
+	case *ssa.BinOp:
+		if c.Op != token.EQL && c.Op != token.NEQ {
+			return Maybe
+		}
+		other := c.X
+		k, isK := constBool(c.Y)
+		if !isK {
+			other = c.Y
+			k, isK = constBool(c.X)
+		}
+		if !isK {
+			return Maybe
+		}
+		// (other == k) is truth  =>  other is k when truth, !k otherwise; reversed for !=
+		val := k == truth
+		if c.Op == token.NEQ {
+			val = !val
+		}
+		return boolImplies(other, val, v, depth+1)
+	case *ssa.Phi:
+		// the edges that can have produced `truth`
+		idx := -1
+		for i, e := range c.Edges {
+			if k, isK := constBool(e); isK && k != truth {
+				continue
+			}
+			if idx >= 0 {
+				return Maybe
+			}
+			idx = i
+		}
+		if idx < 0 {
+			return Maybe
+		}
+		if _, isK := constBool(c.Edges[idx]); !isK {
+			if t := boolImplies(c.Edges[idx], truth, v, depth+1); t != Maybe {
+				return t
+			}
+		}
+		return boolKnownAt(v, c.Block().Preds[idx], depth+1)
+	}
 	return Maybe
+}
+
+// UnknownConst marks, in the sets of ConstSets, a leaf of the value that is not an integer constant.
+const UnknownConst = int64(-1 << 63)
+
+// ConstSets: the integer constants value v may hold in each block, by a forward data-flow from v's definition:
+// v starts with the constants at the leaves of its phi tree; the true edge of `v == K` keeps K, its false edge
+// removes K (and the other way round for `!=`); joins take the union. Reads `if v == A || v == B` (whose body
+// has two predecessors, so that no single dominating edge says anything) as well as nested and early-return
+// forms. Blocks not reachable from the definition are absent.
+func ConstSets(v ssa.Value) map[*ssa.BasicBlock]map[int64]bool {
+	var fn *ssa.Function
+	var start *ssa.BasicBlock
+	switch x := v.(type) {
+	case ssa.Instruction:
+		fn, start = x.Parent(), x.Block()
+	case *ssa.Parameter:
+		fn = x.Parent()
+		if len(fn.Blocks) > 0 {
+			start = fn.Blocks[0]
+		}
+	}
+	out := map[*ssa.BasicBlock]map[int64]bool{}
+	if fn == nil || start == nil {
+		return out
+	}
+	init := map[int64]bool{}
+	seen := map[ssa.Value]bool{}
+	var leaves func(x ssa.Value)
+	leaves = func(x ssa.Value) {
+		if seen[x] {
+			return
+		}
+		seen[x] = true
+		if p, ok := x.(*ssa.Phi); ok {
+			for _, e := range p.Edges {
+				leaves(e)
+			}
+			return
+		}
+		if k, ok := ConstIntValue(x); ok {
+			init[k] = true
+			return
+		}
+		init[UnknownConst] = true
+	}
+	leaves(v)
+	out[start] = init
+	type cmp struct {
+		k      int64
+		eqTrue bool
+	}
+	cmps := map[*ssa.BasicBlock]cmp{}
+	for _, b := range fn.Blocks {
+		ifi, ok := lastIf(b)
+		if !ok {
+			continue
+		}
+		bo, ok := ifi.Cond.(*ssa.BinOp)
+		if !ok || (bo.Op != token.EQL && bo.Op != token.NEQ) {
+			continue
+		}
+		var other ssa.Value
+		switch {
+		case bo.X == v:
+			other = bo.Y
+		case bo.Y == v:
+			other = bo.X
+		default:
+			continue
+		}
+		if k, ok := ConstIntValue(other); ok {
+			cmps[b] = cmp{k, bo.Op == token.EQL}
+		}
+	}
+	for changed := true; changed; {
+		changed = false
+		for _, b := range fn.Blocks {
+			f, ok := out[b]
+			if !ok {
+				continue
+			}
+			for i, s := range b.Succs {
+				if s == start {
+					continue
+				}
+				if out[s] == nil {
+					out[s] = map[int64]bool{}
+					changed = true
+				}
+				cm, has := cmps[b]
+				for k := range f {
+					if has {
+						keepOnly := (i == 0) == cm.eqTrue
+						if keepOnly && k != cm.k && k != UnknownConst {
+							continue
+						}
+						if !keepOnly && k == cm.k {
+							continue
+						}
+					}
+					if !out[s][k] {
+						out[s][k] = true
+						changed = true
+					}
+				}
+			}
+		}
+	}
+	return out
 }
